@@ -1,5 +1,6 @@
 """Collection of useful actions to define arguments."""
 
+import os
 import re
 import sys
 import warnings
@@ -166,6 +167,8 @@ class ActionConfigFile(Action):
         Raises:
             TypeError: If there are problems parsing the configuration.
         """
+        if not isinstance(values, (str, os.PathLike)):
+            raise TypeError(f'Parser key "{self.dest}": expected a path or a config string, got: {values!r}')
         self.apply_config(parser, cfg, self.dest, values)
 
     @staticmethod
@@ -259,7 +262,7 @@ class _ActionPrintConfig(Action):
     def __call__(self, parser, namespace, value, option_string=None):
         kwargs = {"subparser": parser, "key": None, "skip_none": False, "skip_validation": False}
         valid_flags = {"": None, "comments": "yaml_comments", "skip_default": "skip_default", "skip_null": "skip_none"}
-        if value is not None:
+        if value:
             flags = value[0].split(",")
             invalid_flags = [f for f in flags if f not in valid_flags]
             if len(invalid_flags) > 0:
